@@ -53,6 +53,8 @@ def check_module_spec(ctx, ms):
     tname = ms["type"]
     # (a) synth context
     mod = build.make_module(ms)
+    if len(repr(ms)) % 4 == 0 and build.failed_save_in_past(Synth(mod), len(repr(ms))):
+        ctx.label("failed_save_in_the_past")
     s0 = snapshot.snap_module(mod, in_project=False)
     data1 = Synth(mod).read()
     data2 = Synth(mod).read()
